@@ -8,80 +8,50 @@ From Defs Require Import Gen.TypeTables Model.Layout Model.Emit Proofs.LayoutPro
 Import ListNotations.
 Open Scope string_scope. Open Scope list_scope. Open Scope Z_scope.
 
-(* ---------------------------------------------------------------- C04_tables
-   FULL STATEMENT (false of the current code, see C04_tables_refuted):
-     forall k sz kd, tlookup k parser_types = Some (sz, kd) -> key_agrees k sz kd
-   i.e. for every name of parser.supported_types: the struct-format letter, get_ctype_cls's table (keyed by
-   NativeType.name), python type_map and desctype_map, the C, MATLAB and JavaScript tables all have the entry
-   with the same width and signed/unsigned/float/char class (MATLAB: char as int8; JavaScript: char or not). *)
-Theorem C04_tables_refuted :
-  exists k sz kd, tlookup k parser_types = Some (sz, kd) /\ entry_ok (k, (sz, kd)) = false
-                  /\ tlookup k c_types = None /\ tlookup k py_types = None /\ tlookup k matlab_types = None
-                  /\ tlookup k js_types = None /\ ctype_of_native k = None.
-Proof. exists "signed char", 1, 0. vm_compute. repeat split; reflexivity. Qed.
-
-(* domain: the generated list parser_types (27 names today), minus the recorded name *)
-Theorem C04_tables_partial : forall k sz kd,
-  tlookup k parser_types = Some (sz, kd) -> k <> "signed char" -> key_agrees k sz kd.
+(* ---------------------------------------------------------------- C04_tables (finite, complete)
+   for every name of parser.supported_types (domain: the generated list parser_types): the struct-format letter,
+   get_ctype_cls's table (keyed by NativeType.name), python type_map and desctype_map, the C, MATLAB and JavaScript
+   tables all have the entry with the same width and signed/unsigned/float/char class (MATLAB: char as int8;
+   JavaScript: char or not). *)
+Theorem C04_tables : forall k sz kd, tlookup k parser_types = Some (sz, kd) -> key_agrees k sz kd.
 Proof. exact tables_agree. Qed.
 
-Theorem C04_tables_sweep : forallb (entry_ok_except "signed char") parser_types = true.
-Proof. exact tables_partial_sweep. Qed.
+Theorem C04_tables_sweep : forallb entry_ok parser_types = true.
+Proof. exact tables_sweep. Qed.
 
-Example C04_tables_domain : List.length parser_types = 27%nat /\ key_agrees "unsigned long long" 8 1 /\ key_agrees "char" 1 3.
-Proof. split; [reflexivity|]. split; apply tables_agree; try discriminate; vm_compute; reflexivity. Qed.
-
-(* ---------------------------------------------------------------- accepted, "plain" closures
-   plain_run: no definition uses `signed char`, an alias of a struct as a field type, or an array length < 1
-   (Proofs/EmitTotal.v: field_plain).  parse_items ap l = POk st: the model of Parser.parse accepted. *)
-Lemma plain_parsed ap l st : parse_items ap l = POk st -> plain_run ap l ps_empty = true -> InvW st /\ state_plain st = true.
-Proof.
-  intros H Hp. split.
-  - pose proof (run_plain_no_crash ap l ps_empty InvW_empty Hp) as G. unfold parse_items in H. rewrite H in G. exact G.
-  - exact (run_plain_state ap l ps_empty st InvW_empty eq_refl Hp H).
-Qed.
+Example C04_tables_domain : List.length parser_types = 27%nat /\ key_agrees "unsigned long long" 8 1 /\
+  key_agrees "char" 1 3 /\ key_agrees "signed char" 1 0.
+Proof. split; [reflexivity|]. repeat split; apply tables_agree; vm_compute; reflexivity. Qed.
 
 (* ---------------------------------------------------------------- C04_sig
-   per struct / message: field names, order, element class (width, signed/unsigned/float/char or the nested
-   struct / message) and array length read from the Python, C, JavaScript and MATLAB emissions are the same
-   function of the parsed model (JavaScript carries no widths; MATLAB stores char as int8). *)
+   for EVERY accepted closure (parse_items ap l = POk st: the model of Parser.parse accepted), per struct / message:
+   field names, order, element class (width, signed/unsigned/float/char or the nested struct / message) and array
+   length read from the Python, C, JavaScript and MATLAB emissions are the same function of the parsed model
+   (JavaScript carries no widths; MATLAB stores char as int8). *)
 Theorem C04_sig : forall ap l st d,
-  parse_items ap l = POk st -> plain_run ap l ps_empty = true -> In d (all_defs st) ->
+  parse_items ap l = POk st -> In d (all_defs st) ->
   sig_fields pydesc_types count_py (fun c => c) d = sig_fields parser_types count_model (fun c => c) d /\
   sig_fields c_types count_c (fun c => c) d = sig_fields parser_types count_model (fun c => c) d /\
   sig_fields js_types count_c erase_js d = sig_fields parser_types count_model erase_js d /\
   sig_fields matlab_types count_c norm_matlab d = sig_fields parser_types count_model norm_matlab d.
-Proof. intros ap l st d H Hp Hd. destruct (plain_parsed _ _ _ H Hp) as [I P]. apply (signatures_agree st d I P Hd). Qed.
+Proof. intros ap l st d H Hd. destruct (parsed_invw _ _ _ H) as [I P]. apply (signatures_agree st d I P Hd). Qed.
 
 (* ---------------------------------------------------------------- C04_layout
-   the natural C layout of the emitted C struct (c99.py's table), the ctypes layout of the emitted Python class
-   (python.py's table) and the explicit layout the parser recorded have the same offsets, and
-   sizeof = ctypes.sizeof = type_size.  Corollary of C11 (check_alignment_spec) and C04_tables_partial. *)
+   for EVERY accepted closure: the natural C layout of the emitted C struct (c99.py's table), the ctypes layout of
+   the emitted Python class (python.py's table) and the explicit layout the parser recorded have the same offsets,
+   and sizeof = ctypes.sizeof = type_size.  Corollary of C11 (check_alignment_spec) and C04_tables. *)
 Theorem C04_layout : forall ap l st d,
-  parse_items ap l = POk st -> plain_run ap l ps_empty = true -> In d (all_defs st) -> is_signal d = false ->
+  parse_items ap l = POk st -> In d (all_defs st) -> is_signal d = false ->
   let offs := explicit_offsets (lay_model d) 0 in
   c_offsets (lay_c d) 0 = (offs, pd_size d) /\ c_offsets (lay_py d) 0 = (offs, pd_size d) /\
   c_sizeof (lay_c d) = pd_size d /\ c_sizeof (lay_py d) = pd_size d /\ total_size (lay_model d) = pd_size d.
-Proof. intros ap l st d H Hp Hd Hs. destruct (plain_parsed _ _ _ H Hp) as [I P]. apply (layouts_agree st d I P Hd Hs). Qed.
+Proof. intros ap l st d H Hd Hs. destruct (parsed_invw _ _ _ H) as [I P]. apply (layouts_agree st d I P Hd Hs). Qed.
 
-(* FULL STATEMENTS quantify over every accepted closure.  They are false of the current code at array length 0:
-   the parser (and Python) read `int32[0]` as a scalar, C / JavaScript / MATLAB print `[0]`. *)
-Definition len0_items : list item :=
-  [IStruct "S" (BFields [mkFd "a" "int32" (Some (CLit 0)); mkFd "b" "int32" None])].
-
-Theorem C04_layout_refuted : exists st d,
-  parse_items true len0_items = POk st /\ In d (all_defs st) /\ is_signal d = false /\
-  pd_size d = 8 /\ c_sizeof (lay_py d) = 8 /\ c_sizeof (lay_c d) = 4.
-Proof.
-  eexists. eexists. split; [vm_compute; reflexivity|]. split; [left; reflexivity|]. vm_compute. repeat split; reflexivity.
-Qed.
-
-Theorem C04_sig_refuted : exists st d,
-  parse_items true len0_items = POk st /\ In d (all_defs st) /\
-  sig_fields c_types count_c (fun c => c) d <> sig_fields pydesc_types count_py (fun c => c) d.
-Proof.
-  eexists. eexists. split; [vm_compute; reflexivity|]. split; [left; reflexivity|]. vm_compute. discriminate.
-Qed.
+(* array lengths below 1 are rejected (RTMASyntaxError), which is what makes the two statements total *)
+Example C04_len0_rejected :
+  parse_items true [IStruct "S" (BFields [mkFd "a" "int32" (Some (CLit 0)); mkFd "b" "int32" None])] = PReject RSyntax /\
+  parse_items true [IConst "N" (CLit 2); IStruct "S" (BFields [mkFd "a" "int8" (Some (CSub (CRef "N") (CLit 3)))])] = PReject RSyntax.
+Proof. split; vm_compute; reflexivity. Qed.
 
 (* ---------------------------------------------------------------- hash literal forms
    Python prints 0x + upper-case hex, C 0x + lower-case, JavaScript and MATLAB quoted lower-case: same number. *)
@@ -101,16 +71,16 @@ Proof. intros ds H. apply hexval_acc_forms. exact H. Qed.
 (* ---------------------------------------------------------------- non-vacuity *)
 Definition ex_items : list item :=
   [IConst "N" (CLit 3); IAlias "A16" "int16"; IAlias "AA" "A16";
-   IStruct "S0" (BFields [mkFd "q" "unsigned short" (Some (CLit 2)); mkFd "r" "long" None]);
+   IStruct "S0" (BFields [mkFd "q" "unsigned short" (Some (CLit 2)); mkFd "r" "long" None; mkFd "s" "signed char" (Some (CLit 4))]);
    IStruct "S1" (BFields [mkFd "a" "char" (Some (CRef "N")); mkFd "b" "int32" None; mkFd "c" "uint8" None;
                           mkFd "d" "AA" None; mkFd "e" "S0" (Some (CMul (CRef "N") (CLit 2)))]);
    IMsg "M1" 1000 (Some (BFields [mkFd "s" "S1" None; mkFd "t" "float" (Some (CLit 6)); mkFd "u" "double" None]));
    IMsg "M0" 900 (Some (BFields [mkFd "m" "M1" (Some (CLit 2))]));
    IMsg "SIG" 1002 None; IMsg "RU" 1003 (Some (BReuse "M1"))].
 
-Example C04_ex_accepted_plain : plain_run true ex_items ps_empty = true /\
+Example C04_ex_accepted :
   exists st, parse_items true ex_items = POk st /\ List.length (all_defs st) = 6%nat /\
-             map pd_size (all_defs st) = [8; 60; 96; 192; 0; 96] /\
+             map pd_size (all_defs st) = [12; 84; 120; 240; 0; 120] /\
              (* auto-inserted interior and trailing padding is part of what every language prints *)
-             map (fun d => List.length (pd_fields d)) (all_defs st) = [2; 7; 4; 1; 0; 4]%nat.
-Proof. split; [vm_compute; reflexivity|]. eexists. split; [vm_compute; reflexivity|]. vm_compute. repeat split; reflexivity. Qed.
+             map (fun d => List.length (pd_fields d)) (all_defs st) = [3; 7; 4; 1; 0; 4]%nat.
+Proof. eexists. split; [vm_compute; reflexivity|]. vm_compute. repeat split; reflexivity. Qed.
